@@ -137,3 +137,23 @@ pub fn empty_frame_native(_x: u8) -> u32 {
     assert!(seen[3..10].iter().all(|&n| n == 1), "bytes 3..10 must all have been delivered");
     1
 }
+
+/// Native replay body for the E2 slice query `e2_assembler_insert_bounded_memory_slice` (C06): the application does
+/// not read; the peer sends a 99 kB range once and then retransmits it `rounds` more times in well-filled 1000-byte
+/// frames (no new flow-control credit is needed for that).  What the assembler holds stays within a constant factor
+/// of the unread span.
+pub fn duplicates_bounded_native(rounds: u8) -> u32 {
+    let mut a = Assembler::new();
+    a.ensure_ordering(true).unwrap();
+    let span = 99_000u64;
+    for _ in 0..=(rounds as u32) {
+        let mut off = 0u64;
+        while off < span {
+            a.insert(off, Bytes::from(vec![7u8; 1000]), 1000).unwrap();
+            off += 1000;
+            let bound = 32768 + span as usize + span as usize * 3 / 2;
+            assert!(a.allocated <= bound, "{} bytes accounted to the reassembly buffer for {} unread bytes", a.allocated, span);
+        }
+    }
+    1
+}
